@@ -24,6 +24,7 @@ type wireCase struct {
 	Kind  string // how the input was made (evidence only)
 	Off   int    // offset for the record / name decoders
 	Valid bool   // the input is a mutation of (or is) a valid message rather than noise
+	Huge  bool   `json:",omitempty"` // tens of thousands of items: printing is skipped (see postProcess)
 }
 
 // guarded runs f in its own goroutine; it reports a panic value (with stack) or a hang.
@@ -115,20 +116,32 @@ func namesOf(rr dns.RR) []string {
 	return out
 }
 
-func postProcess(m *dns.Msg) (string, bool) {
+// postProcess: whatever was accepted can be printed, measured, copied, re-packed, truncated.
+// Printing is left out for the inputs of every-container-many-items: the library builds its text by
+// repeated concatenation (Msg.String, NSEC/SVCB/OPT/HIP String), which is quadratic in the number
+// of items - 65536 bitmap types from an 8.7 KB message take 7 s to print, 48000 questions longer
+// than the watchdog. That is slow, not a panic, and C02 states nothing about the cost of printing.
+func postProcess(m *dns.Msg, print bool) (string, bool) {
 	return guarded(func() {
-		_ = m.String()
+		if print {
+			_ = m.String()
+		}
 		_ = m.Len()
 		c := m.Copy()
 		_, _ = m.Pack()
 		m.Compress = !m.Compress
 		_, _ = m.Pack()
-		_ = c.String()
+		if print {
+			_ = c.String()
+		}
 		c.Truncate(512)
 		_, _ = c.Pack()
 		for _, rr := range append(append(append([]dns.RR{}, m.Answer...), m.Ns...), m.Extra...) {
 			_ = dns.Len(rr)
-			_ = dns.Copy(rr).String()
+			cp := dns.Copy(rr)
+			if print {
+				_ = cp.String()
+			}
 			dns.IsDuplicate(rr, rr)
 		}
 	})
@@ -160,6 +173,24 @@ func checkMsg(c wireCase) error {
 	if !bytes.Equal(buf, in) {
 		return pbt.Errf("Msg.Unpack modified its input buffer")
 	}
+	// work: on inputs large enough to tell, decoding time stays within a (generous) fixed multiple of
+	// the input length; the fastest of up to five attempts counts, so that a busy machine cannot
+	// make a linear decoder look slow
+	if len(in) >= 4096 {
+		bound := 30*time.Millisecond + time.Duration(len(in))*3*time.Microsecond
+		best := time.Duration(1 << 62)
+		for i := 0; i < 5 && best > bound; i++ {
+			var mm dns.Msg
+			t0 := time.Now()
+			guarded(func() { mm.Unpack(in) })
+			if d := time.Since(t0); d < best {
+				best = d
+			}
+		}
+		if best > bound {
+			return pbt.Errf("Msg.Unpack needs %v for %d input octets in the fastest of five attempts (bound %v): work is not bounded by a fixed multiple of the input length", best, len(in), bound)
+		}
+	}
 	// the result must not depend on what the Msg value held before (servers recycle Msg values)
 	used := usedMsg()
 	var err2 error
@@ -169,7 +200,7 @@ func checkMsg(c wireCase) error {
 	if (err == nil) != (err2 == nil) {
 		return pbt.Errf("Msg.Unpack accepts/rejects depending on the previous content of the Msg: fresh err=%v, used err=%v", err, err2)
 	}
-	if err == nil {
+	if err == nil && !c.Huge {
 		var s1, s2 string
 		if p3, h3 := guarded(func() { s1, s2 = m.String(), used.String() }); p3 == "" && !h3 && s1 != s2 {
 			return pbt.Errf("Msg.Unpack of %d octets into a Msg that held another message leaves stale content behind:\n%s\n-- instead of --\n%s", len(in), clip(s2), clip(s1))
@@ -198,7 +229,7 @@ func checkMsg(c wireCase) error {
 			}
 		}
 	}
-	if p, hung := postProcess(&m); hung || p != "" {
+	if p, hung := postProcess(&m, !c.Huge); hung || p != "" {
 		return pbt.Errf("an accepted message cannot be printed/measured/copied/re-packed/truncated (hung=%v): %s", hung, p)
 	}
 	return nil
@@ -1000,7 +1031,67 @@ func eachTypeManyRecords(emit func(wireCase)) {
 	}
 }
 
+// eachManyItems: ONE record (or the question section) holding as many of its smallest inner items
+// as 65535 octets allow - SvcParams, EDNS0 options, APL items, character-strings, alpn ids, address
+// hints, mandatory keys, bitmap windows, rendezvous servers, questions. Work or memory per item that
+// grows with the number of items before it shows here and nowhere else.
+func eachManyItems(emit func(wireCase)) {
+	rec := func(kind string, typ uint16, rdata []byte) {
+		if len(rdata) > 65000 {
+			rdata = rdata[:65000]
+		}
+		w := []byte{0, 9, 0x84, 0, 0, 0, 0, 1, 0, 0, 0, 0}
+		w = append(w, 1, 'x', 0)
+		w = binary.BigEndian.AppendUint16(w, typ)
+		w = append(w, 0, 1, 0, 0, 0, 9)
+		w = binary.BigEndian.AppendUint16(w, uint16(len(rdata)))
+		w = append(w, rdata...)
+		emit(wireCase{Input: w, Kind: "many-items:" + kind, Valid: true, Huge: true})
+	}
+	rep := func(n int, item func(i int) []byte) []byte {
+		var out []byte
+		for i := 0; i < n; i++ {
+			out = append(out, item(i)...)
+		}
+		return out
+	}
+	u16 := func(v int) []byte { return []byte{byte(v >> 8), byte(v)} }
+	for _, n := range []int{4000, 16000} {
+		for _, typ := range []uint16{wm.TSVCB, wm.THTTPS} {
+			head := []byte{0, 1, 0}
+			rec(fmt.Sprintf("svcparams-%d", n), typ, append(append([]byte{}, head...), rep(n, func(i int) []byte { return append(u16(10+i), 0, 0) })...))
+			rec(fmt.Sprintf("alpn-ids-%d", n), typ, append(append(append([]byte{}, head...), append(u16(1), u16(2*n)...)...), rep(n, func(i int) []byte { return []byte{1, 'h'} })...))
+			rec(fmt.Sprintf("ipv4hints-%d", n), typ, append(append(append([]byte{}, head...), append(u16(4), u16(4*n)...)...), rep(n, func(i int) []byte { return []byte{192, 0, byte(i >> 8), byte(i)} })...))
+			rec(fmt.Sprintf("mandatory-%d", n), typ, append(append(append([]byte{}, head...), append(u16(0), u16(2*n)...)...), rep(n, func(i int) []byte { return u16(1 + i) })...))
+		}
+		rec(fmt.Sprintf("apl-items-%d", n), wm.TAPL, rep(n, func(i int) []byte { return []byte{0, 1, 0, 0} }))
+		rec(fmt.Sprintf("txt-strings-%d", 4*n), wm.TTXT, rep(4*n, func(i int) []byte { return []byte{0} }))
+		rec(fmt.Sprintf("hip-servers-%d", n), wm.THIP, append([]byte{1, 1, 0, 1, 7, 8}, rep(4*n, func(i int) []byte { return []byte{0} })...))
+		// OPT with many empty options (in the additional section)
+		opts := rep(n, func(i int) []byte { return append(u16(65001), 0, 0) })
+		w := []byte{0, 9, 0x84, 0, 0, 0, 0, 0, 0, 0, 0, 1, 0, 0, 41, 16, 0, 0, 0, 0, 0}
+		w = append(append(w, u16(len(opts))...), opts...)
+		emit(wireCase{Input: w, Kind: fmt.Sprintf("many-items:opt-options-%d", n), Valid: true, Huge: true})
+		// many questions
+		q := []byte{0, 9, 0x84, 0}
+		q = append(append(q, u16(3*n)...), 0, 0, 0, 0, 0, 0)
+		q = append(q, rep(3*n, func(i int) []byte { return []byte{0, 0, 1, 0, 1} })...)
+		if len(q) > 65535 {
+			q = q[:65535]
+		}
+		emit(wireCase{Input: q, Kind: fmt.Sprintf("many-items:questions-%d", 3*n), Valid: true, Huge: true})
+	}
+	// type bitmaps: 64 windows, each with its full 32 octets (16384 types). Not all 256: printing a
+	// type bitmap is quadratic in the number of types (NSEC.String() builds its text by repeated
+	// concatenation; 65536 types from an 8.7 KB message take 7 s to print) - observed, and outside
+	// what C02 states about printing ("without panicking")
+	bm := rep(64, func(i int) []byte { return append([]byte{byte(i), 32}, bytes.Repeat([]byte{0xff}, 32)...) })
+	rec("bitmap-windows-64", wm.TNSEC, append([]byte{0}, bm...))
+	rec("bitmap-windows-64", wm.TCSYNC, append([]byte{0, 0, 0, 1, 0, 3}, bm...))
+}
+
 func init() {
+	pbt.RegisterEnum(pbt.Enum[wireCase]{Name: "every-container-many-items", Exhaustive: true, Each: eachManyItems, Check: checkMsg})
 	pbt.RegisterEnum(pbt.Enum[wireCase]{Name: "every-type-small-values", Exhaustive: true, Each: eachSmallValue, Check: checkMsg})
 	pbt.RegisterEnum(pbt.Enum[wireCase]{Name: "every-type-many-records", Exhaustive: true, Each: eachTypeManyRecords, Check: checkMsg})
 	pbt.Register(pbt.Sub[hdrCase]{Name: "rr-with-header", Weight: 20, Gen: genWithHeader, Check: checkWithHeader})
